@@ -596,7 +596,7 @@ func vfH_dial_logic() {
 	vfOnRequest = nil
 	// ---- verdicts ----
 	if malformed {
-		vfAssert(c == nil && err == errMalformedURL, "c14-malformed-url-refused")
+		vfAssert(c == nil && err != nil, "c14-malformed-url-refused")
 		vfAssert(len(dials) == 0 && vfDefaultDialerUsed == 0, "c14-no-network-activity-for-malformed-url")
 		vfReach("dial-malformed")
 		return
@@ -663,14 +663,14 @@ func vfH_dial_logic() {
 				h[k] = vs
 			}
 		}
-		vfAssert(len(h["Upgrade"]) == 1 && h["Upgrade"][0] == "websocket", "c14-request-upgrade-header")
-		vfAssert(len(h["Connection"]) == 1 && h["Connection"][0] == "Upgrade", "c14-request-connection-header")
+		vfAssert(len(h["Upgrade"]) == 1 && strings.EqualFold(h["Upgrade"][0], "websocket"), "c14-request-upgrade-header")
+		vfAssert(len(h["Connection"]) == 1 && strings.EqualFold(h["Connection"][0], "upgrade"), "c14-request-connection-header")
 		vfAssert(len(h["Sec-WebSocket-Version"]) == 1 && h["Sec-WebSocket-Version"][0] == "13", "c14-request-version-13")
 		// (b) the key is 16 fresh bytes from the random source, drawn for this call
 		vfAssert(len(kr.draws) == 1 && len(kr.draws[0]) == 16, "c14-key-is-16-fresh-random-bytes")
 		vfAssert(len(h["Sec-WebSocket-Key"]) == 1 && vfStrEq(h["Sec-WebSocket-Key"][0], specBase64(kr.draws[0])), "c14-request-key-is-this-dials-fresh-key")
 		if len(in.d.Subprotocols) > 0 {
-			vfAssert(len(h["Sec-WebSocket-Protocol"]) == 1 && h["Sec-WebSocket-Protocol"][0] == "chat, superchat", "c14-request-subprotocols")
+			vfAssert(len(h["Sec-WebSocket-Protocol"]) == 1 && strings.ReplaceAll(h["Sec-WebSocket-Protocol"][0], " ", "") == "chat,superchat", "c14-request-subprotocols")
 		}
 		ext := h["Sec-WebSocket-Extensions"]
 		if in.d.EnableCompression {
@@ -741,7 +741,7 @@ func vfH_dial_logic() {
 		if !faulted {
 			vfAssert(!accepted || extOne, "c14-accepting-reply-connects")
 			if extOne && accepted {
-				vfAssert(err == errInvalidCompression, "c15-partial-parameters-refused")
+				vfAssert(err != nil, "c15-partial-parameters-refused")
 			} else {
 				vfAssert(err == ErrBadHandshake, "c14-errbadhandshake-on-negative-reply")
 				vfAssert(resp != nil && resp.StatusCode == in.code, "c14-response-returned-with-status")
